@@ -323,7 +323,7 @@ def run_case(case):
 CHECK = Check(
     P, 'exploration',
     rule=('Hypothesis-generated models of 1-4 scalar parameters in random forests/chains with distributions uniform, norm, expon, gamma, beta, '
-          'truncnorm and a user-defined scipy-like class; location arguments constant or a parent parameter, scale arguments constant or '
+          'truncnorm, a user-defined scipy-like class and an elfi.Distribution subclass with rvs+pdf only (bounded support, inherited log density); location arguments constant or a parent parameter, scale arguments constant or '
           'a positive-support parent; parameter_names = default, a permutation, or an ancestor-closed strict subset; evaluation points = '
           'draws, points on a support boundary, points outside; scalar / (dim,) / (n,dim) / (n,) inputs; gradient at interior draws and '
           'outside the support. Non-trivial = hierarchical model or a non-default subset/order.'),
